@@ -30,7 +30,7 @@ from ..recipes import ref as R
 
 LEVEL = "exploration"
 BUDGET_S = {"quick": 85, "thorough": 1500}
-N_RANDOM = {"quick": 28, "thorough": 900}
+N_RANDOM = {"quick": 32, "thorough": 900}
 NLP_METHODS = ["auto", "SLSQP", "trust-constr", "L-BFGS-B", "BFGS", "Nelder-Mead", "COBYLA", "Powell", "TNC", "CG"]
 LP_METHODS = ["auto", "linprog", "highs", "highs-ds", "highs-ipm", "SLSQP", "trust-constr"]
 
@@ -100,7 +100,7 @@ def info(tier):
         "point x min/max x tol x 5 methods; linprog statuses 0-4); every OPTIMAL solution's constraints and bounds are "
         "re-evaluated by the reference interpreter; distinct = canonical (problem, method, options | stub script) hashes"
         % len(message_catalogue()),
-        "required_cells": ["A:feasible", "A:infeasible", "A:boundary", "A:lp-feasible", "A:lp-infeasible", "A:deep-constraint", "A:edit-then-resolve"]
+        "required_cells": ["A:feasible", "A:infeasible", "A:boundary", "A:lp-feasible", "A:lp-infeasible", "A:deep-constraint", "A:edit-then-resolve", "A:mixed-degree-vector"]
         + [f"A:method:{m}" for m in sorted(set(NLP_METHODS + LP_METHODS))]
         + [f"B:point:{p}" for p in ("feasible", "violates-le", "violates-ge", "violates-eq", "violates-lb", "violates-ub")]
         + ["B:success:True", "B:success:False", "B:linprog"],
@@ -192,6 +192,22 @@ def deep_constraint_problem(rng):
     return {"decls": decls, "objective": ["dot", d, d], "sense": "min", "constraints": [["rel", s, acc, ["raw", rhs, "float"], "direct"]]}
 
 
+def mixed_degree_problem(rng):
+    """an otherwise linear model with one vector operand whose elements have different degrees (the non-linear one not last)"""
+    n = 3
+    decls = [{"k": "vec", "name": "x", "n": n, "lb": 0.0, "ub": 20.0}]
+    x = ["vec", "x"]
+    k = rng.randrange(n - 1)
+    elems = [["bin", "*", ["raw", 2.0, "float"], ["bin", "**", ["el", x, i], ["raw", 2, "int"]]] if i == k else ["el", x, i] for i in range(n)]
+    vec = ["velems", elems]
+    w = ["arr", [1.0, 1.0, 1.0]]
+    form = rng.choice(["lc", "lc-rev", "dot"])
+    lhs = ["matmul", w, vec] if form == "lc" else (["matmul", vec, w] if form == "lc-rev" else ["dot", vec, ["velems", [["const", 1.0, "float"]] * n]])
+    cons = [["rel", "<=", lhs, ["raw", 10.0, "float"], "direct"]]
+    obj = ["matmul", ["arr", [3.0, 1.0, 2.0]], x]
+    return {"decls": decls, "objective": obj, "sense": "max", "constraints": cons}
+
+
 def run_edit_then_resolve(rec, rng, prob, later, cell, method):
     """solve; then add `later` (a list of constraints) with one subject_to([...]) call; solve again; judge against all."""
     rec.case({"p": prob["objective"], "c": prob.get("constraints"), "l": later, "d": prob["decls"], "m": method})
@@ -237,8 +253,13 @@ def workload_a(ctx, rec):
     while n < N_RANDOM[ctx.tier] and not rec.out_of_time():
         n += 1
         k += 1
-        which = k % 7
+        which = k % 8
         lp = False
+        if which == 7:
+            prob = mixed_degree_problem(rng)
+            for m in ("auto", "linprog", "highs-ds", "SLSQP"):
+                run_real(rec, rng, prob, "A:mixed-degree-vector", m, {})
+            continue
         if which == 5:
             prob = deep_constraint_problem(rng)
             for m in ("auto", "SLSQP", "trust-constr"):
